@@ -706,6 +706,116 @@ def nowarn_failure(sc, r):
     return None
 
 
+def degenerate_mix(consts, g, n, deg, where, fam="uniform", kappa=10.0, pre="none"):
+    """Tridiagonal scenario mixing a degenerate right-hand side (zero / eigenvector / 2-dimensional invariant subspace)
+    with generic ones, across columns (`where='column'`) or across batch members (`where='batch'`).
+    Returns the scenario with `_kdim[(batch idx…, col)]` = Krylov dimension of every column (n for generic ones)."""
+    batch = (2,) if where == "batch" else ()
+    cols = 3 if where == "column" else 2
+    sc = make_scenario(consts, g, n, fam, kappa, F64, abatch=batch, cols=cols, pre=pre, n_tridiag=cols, max_iter=n + 2,
+                       max_tridiag_iter=n, tolerance=0.0, eps=1e-30, stop_updating_after=1e-13)
+    A = sc["A"]
+    rhs = sc["rhs"].clone()
+    pos = (1,) + (0,) if where == "batch" else ()      # degenerate probe: batch member 1 / column 0, or column 1
+    col = 0 if where == "batch" else 1
+    Ab = A[1] if where == "batch" else A
+    w, V = torch.linalg.eigh(Ab)
+    if deg == "zero":
+        v, d = torch.zeros(n, dtype=F64), 0
+    elif deg == "eigvec":
+        v, d = V[:, n // 2] * 3.0, 1
+    else:
+        v, d = 2.0 * V[:, 0] - 1.5 * V[:, n - 1], 2
+    if where == "batch":
+        rhs[1, :, col] = v
+    else:
+        rhs[:, col] = v
+    sc["rhs"] = rhs
+    kd = {}
+    for bi in ([(0,), (1,)] if where == "batch" else [()]):
+        for j in range(cols):
+            kd[bi + (j,)] = n
+    kd[((1,) if where == "batch" else ()) + (col,)] = min(d, n)
+    sc["_kdim"] = kd
+    sc["_deg"], sc["_where"] = deg, where
+    if n == 1:
+        for k_ in kd:
+            kd[k_] = min(kd[k_], 1)
+    return sc
+
+
+def check_tridiag_mixed(chk, sc):
+    """One degenerate probe must not disturb the tridiagonal matrices of the generic ones: common size = largest Krylov dimension,
+    every generic column symmetric tridiagonal = dense Lanczos matrix started at that column, quadrature identity at full dimension;
+    the leading Krylov block of the degenerate column is its Lanczos matrix too."""
+    n, nt = sc["n"], sc["n_tridiag"]
+    cell = f"C08/tridiag-mixed/deg={sc['_deg']}|where={sc['_where']}|n={n}|fam={sc['fam']}|pre={sc['pre']}"
+    chk.case(cell + "|" + bits(float(sc["rhs"].double().sum())), nontrivial=True)
+    pl = payload_of(sc, {"check": "tridiag-mixed", "deg": sc["_deg"], "where": sc["_where"]})
+    r = run_impl(sc)
+    if r.err:
+        chk.violation(cell + "/raises", f"linear_cg raised {r.err}", pl)
+        return
+    T = r.tmat.double()
+    want = max(sc["_kdim"].values())
+    if T.shape[-1] != want:
+        chk.violation(cell + "/size", f"tridiagonal matrices have size {T.shape[-1]} but the generic columns have Krylov dimension {want} "
+                      f"(max_tridiag_iter={sc['max_tridiag_iter']}, max_iter={sc['max_iter']}): a degenerate probe ({sc['_deg']}) next to them "
+                      f"must not stop the tridiagonalisation of the others", pl)
+        return
+    if not torch.equal(T, T.mT) or bool((T[..., ~torch.ones(want, want, dtype=torch.bool).tril(1).triu(-1)] != 0).any()):
+        chk.violation(cell + "/shape", "tridiagonal output not symmetric tridiagonal", pl)
+        return
+    A = sc["A"].double()
+    Minv = sc.get("Minv")
+    kap = eff_kappa(sc)[0]
+    for key, kd in sc["_kdim"].items():
+        bidx, j = key[:-1], key[-1]
+        Ab = A[bidx] if A.dim() > 2 else A
+        if Minv is not None:
+            L = torch.linalg.cholesky(Minv.double()[bidx] if Minv.dim() > 2 else Minv.double())
+            B = L.mT @ Ab @ L
+            B = (B + B.mT) / 2
+        else:
+            L, B = None, Ab
+        b = sc["rhs"].double()[bidx][:, j] if bidx else sc["rhs"].double()[:, j]
+        if kd == 0:
+            continue
+        Tj = T[(j,) + bidx][:kd, :kd]
+        q0 = b / b.norm() if L is None else L.mT @ (b / b.norm())
+        ref = dense_lanczos(B, q0, kd)
+        if ref is None:
+            continue
+        dlt = float((ref - Tj).abs().max() / ref.abs().max())
+        if dlt > 1e-7 * max(10.0, kap):
+            chk.violation(cell + "/lanczos", f"column {j} batch {bidx} (Krylov dimension {kd}): leading block differs from the Lanczos matrix started at "
+                          f"that column by {dlt:.3e} (relative)", pl)
+            return
+        chk.count("mixed_lanczos_checked")
+        if kd == n and n > 1:
+            w, V = torch.linalg.eigh(Tj)
+            wb, Vb = torch.linalg.eigh(B)
+            qq = q0 / q0.norm()
+            for nm, f in (("inv", lambda t: 1 / t), ("log", torch.log), ("sq", lambda t: t * t)):
+                lhs = float((V[0, :] ** 2 * f(w)).sum())
+                rq = float(((Vb.T @ qq) ** 2 * f(wb)).sum())
+                if abs(lhs - rq) > 1e-8 * max(1.0, abs(rq)) * max(10.0, kap):
+                    chk.violation(cell + "/quadrature", f"generic column {j} batch {bidx}: e1' f(T) e1 = {lhs:.12g} but z' f(A) z = {rq:.12g} for f={nm} "
+                                  f"at full dimension n={n}", pl)
+                    return
+            chk.count("mixed_quadrature_checked")
+
+
+def mixed_scenarios(chk, consts, g, rng):
+    reps = 1 if chk.tier == "quick" else 3
+    for _ in range(reps):
+        for deg in ("zero", "eigvec", "inv2"):
+            for where in ("column", "batch"):
+                n = rng.choice([3, 4, 6, 8])
+                pre = "jacobi" if deg == "zero" and rng.random() < 0.5 else "none"
+                yield degenerate_mix(consts, g, n, deg, where, fam=rng.choice(["uniform", "geometric"]), kappa=rng.choice([4.0, 10.0]), pre=pre)
+
+
 def check_raises(chk, consts, g):
     from linear_operator.utils.linear_cg import linear_cg
     for n, mi, mt in ((4, 3, 4), (6, 5, 20), (3, 0, 1), (5, 19, None)):
@@ -1076,6 +1186,10 @@ def run(chk):
         check_tridiag(chk, sc)
         if sc["n"] <= 8:
             check_scaling(chk, sc, rng.choice([2.0, -1.0, 5.5]))
+    mixed = list(mixed_scenarios(chk, consts, g, rng))
+    for sc in mixed:
+        check_tridiag_mixed(chk, sc)
+    run_correspondence(chk, mixed[:6])      # the model's switch-off is the max over all tridiagonal columns and batch members
     for n in ([2, 5, 16, 64] if quick else [1, 2, 3, 5, 8, 16, 32, 64]):
         for fam in FAMS:
             kappa = rng.choice([10.0, 1e3, 1e4])
@@ -1103,6 +1217,10 @@ def replay(chk, payload):
         check_tridiag(chk, sc)
     elif kind == "corr":
         run_correspondence(chk, [sc])
+    elif kind == "tridiag-mixed":
+        sc2 = degenerate_mix(consts, torch.Generator().manual_seed(0), sc["n"], p.get("deg", "zero"), p.get("where", "column"))
+        sc2["A"], sc2["rhs"], sc2["Minv"], sc2["pre"] = sc["A"], sc["rhs"], sc.get("Minv"), sc.get("pre") or "none"
+        check_tridiag_mixed(chk, sc2)
     elif kind == "nowarn":
         msg = nowarn_failure(sc, run_impl(sc))
         if msg:
